@@ -335,7 +335,11 @@ class SecureField(Field):
                 raise ValueError("invalid ciphertext")
 
             try:
-                ciphertext = base64.b64decode(ciphertext_b64, validate=True)
+                # line breaks and blanks (a wrapped value in a hand-edited file) are fine, anything
+                # else outside the base64 alphabet is an error
+                ciphertext = base64.b64decode(
+                    "".join(ciphertext_b64.split()), validate=True
+                )
             except binascii.Error as err:
                 raise ValueError("invalid ciphertext") from err
 
